@@ -71,6 +71,8 @@ fn list_val(i: usize, p: &str, q: &str) -> Option<String> {
         4 => Some(format!(":{}::{}:", p, q)),
         // thorough only: a relative entry and an entry with a trailing separator; only empty segments
         5 => Some(format!("rel{}:{}/", p, q)),
+        // the root directory as an entry (a segment that consists of separators only is not empty)
+        7 => Some(format!("/:{}://", p)),
         _ => Some("::".to_string()),
     }
 }
@@ -80,7 +82,7 @@ fn single_choices(tier: Tier) -> &'static [usize] {
 }
 
 fn list_choices(tier: Tier) -> &'static [usize] {
-    tier.pick(&[0, 1, 2, 3, 4, 6][..], &[0, 1, 2, 3, 4, 5, 6][..])
+    tier.pick(&[0, 1, 2, 3, 4, 6, 7][..], &[0, 1, 2, 3, 4, 5, 6, 7][..])
 }
 
 fn env(name: &str) -> Option<String> {
